@@ -438,6 +438,13 @@ def c04(ctx):
     rep = ctx.report(rp)
     trep, results = _treetrace(ctx, quick, cov, 1)
     violations = [v for v in rep["violations"] if v["property"] == prop] + _tree_violations(results, prop)
+    # every <meta> attribute list of MC_Meta's tags mode, rendered and detected six times: the answers must agree
+    mt = ctx.tlc_expect_ok("MC_Meta.tla", "MC_Meta_tags.cfg", tag="meta_tags_c04")
+    rpm = os.path.join(ctx.scratch, "meta_tags_c04.json")
+    ctx.vdrive(["metadocs", "-in", mt["out"], "-out", rpm])
+    os.remove(mt["out"])
+    mrep = ctx.report(rpm)
+    violations += [v for v in mrep["violations"] if v["property"] == prop]
     cov.update(
         evaluations=rep["evaluations"] + trep["evaluations"],
         distinct_nontrivial=rep["extra"]["histories_with_a_call_started_from_dirty_pooled_state"],
